@@ -878,6 +878,24 @@ func LoadContractFile(path string, trusted bool) (*ContractSet, error) {
 					c.Expr = rr
 					c.Lhs = l
 					fs.Clauses = append(fs.Clauses, c)
+				case "loopeach":
+					// F when EXPR
+					f := strings.SplitN(c.Text, " ", 3)
+					if len(f) != 3 || f[1] != "when" {
+						return fmt.Errorf("%s:%d: loop K each F when EXPR", path, c.Line)
+					}
+					e, err := ParseSExpr(f[2])
+					if err != nil {
+						return fmt.Errorf("%s:%d: %v", path, c.Line, err)
+					}
+					c.Expr = e
+					c.Text = f[0]
+					c.Ord = ordCount[fmt.Sprintf("loopeach@%d", c.Loop)]
+					ordCount[fmt.Sprintf("loopeach@%d", c.Loop)]++
+					if c.Props == nil {
+						c.Props = fs.Props
+					}
+					fs.Clauses = append(fs.Clauses, c)
 				case "callsite":
 					// callsite NAME requires EXPR   (arguments are arg0, arg1, ...)
 					f := strings.SplitN(c.Text, " ", 3)
@@ -941,6 +959,8 @@ func LoadContractFile(path string, trusted bool) (*ContractSet, error) {
 							cur.Kind = "loopdecreases"
 						case "modifies":
 							cur.Kind = "loopmodifies"
+						case "each":
+							cur.Kind = "loopeach" // loop K each F when E: an iteration in which E holds calls F
 						default:
 							return nil, fmt.Errorf("%s:%d: loop clause %q", path, b.n, f[1])
 						}
